@@ -10,6 +10,8 @@ META = dict(
          "with interposed clock_gettime; agent-level clause (black-holed pair abandoned after N transmissions) is outside the theorem",
     technique="Coq proof over executable model + extracted-model/implementation differential correspondence")
 
+COQ_TARGETS = ["Props/Properties_C19.vo", "Timer/Extract_Timer.vo"]
+
 FINISH = dict(
     level="proof",
     trusted=["hand-written model coq/Timer/TimerModel.v of stun/usages/timer.c, tied to the code by differential "
